@@ -68,7 +68,7 @@ pub fn compare(make: &dyn Fn(usize) -> String, ks: &[usize], what: &str) -> Case
 pub fn check(ctx: &Ctx) -> i32 {
     let start = Instant::now();
     let mut ev = Evidence::default();
-    ev.rule = "scalable families parameterised by (construct kinds, depth k, number of constructors 2..4, amount of trailing code): k sequenced branch points (conditional, match over c constructors, data-typed match feeding a match = critical pairs, conditional with codata result, conditionals in operand position), k nested branch points (conditional / match), k nested branch points whose result has type i64 / a four-constructor data type / a list / a codata type with one / with two destructors, sitting in a let binding or directly in a call argument, branching by a conditional or a four-way match, each sequenced kind also with every kind of statement directly following the branch point (call of a top-level definition with one/several arguments, print, constructor + match, destructor invocation, label + jump, arithmetic, closure creation + invocation), and seeded random mixtures of kinds and followers; oracle: for k = 4..8 every stage's size (characters of printed Core, focused Core, AxCut, linearized AxCut; lines of x86-64/AArch64/RISC-V assembly) at depth 2k is at most 16x the size at depth k (degree <= 4; duplication of continuations gives a factor >= 2^k), and all stages finish. Non-trivial: every compiled family; distinct by hash of the family parameters.".into();
+    ev.rule = "scalable families parameterised by (construct kinds, depth k, number of constructors 2..4, amount of trailing code): k sequenced branch points (conditional, match over c constructors, data-typed match feeding a match = critical pairs, conditional with codata result, conditionals in operand position), k nested branch points (conditional / match), k branch points nested in scrutinee position (matches of matches, destructor chains), k nested branch points whose result has type i64 / a four-constructor data type / a list / a codata type with one / with two destructors, sitting in a let binding or directly in a call argument, branching by a conditional or a four-way match, each sequenced kind also with every kind of statement directly following the branch point (call of a top-level definition with one/several arguments, print, constructor + match, destructor invocation, label + jump, arithmetic, closure creation + invocation), and seeded random mixtures of kinds and followers; oracle: for k = 4..8 every stage's size (characters of printed Core, focused Core, AxCut, linearized AxCut; lines of x86-64/AArch64/RISC-V assembly) at depth 2k is at most 16x the size at depth k (degree <= 4; duplication of continuations gives a factor >= 2^k), and all stages finish. Non-trivial: every compiled family; distinct by hash of the family parameters.".into();
     ev.assumptions = vec!["size is measured on the printed form of each stage".into()];
     let mut report = Report { violations: vec![], infra_errors: vec![] };
     let ks: Vec<usize> = ctx.tier.pick(vec![4, 6, 8], vec![4, 5, 6, 7, 8]);
@@ -80,6 +80,9 @@ pub fn check(ctx: &Ctx) -> i32 {
     }
     for kind in 0..2usize {
         fixed.push((format!("nested kind {kind}"), Box::new(move |k| nested_family(kind, k))));
+    }
+    for kind in 0..3usize {
+        fixed.push((format!("scrutinee nesting kind {kind}"), Box::new(move |k| scrutinee_family(kind, k))));
     }
     for ty in 0..5usize {
         for pos in 0..2usize {
@@ -146,6 +149,11 @@ pub fn replay(_ctx: &Ctx, sub: &str, bytes: &[u8], case: &serde_json::Value) -> 
     for kind in 0..2usize {
         if name == format!("nested kind {kind}") {
             return compare(&move |k| nested_family(kind, k), &[4, 6, 8], name);
+        }
+    }
+    for kind in 0..3usize {
+        if name == format!("scrutinee nesting kind {kind}") {
+            return compare(&move |k| scrutinee_family(kind, k), &[4, 6, 8], name);
         }
     }
     for ty in 0..5usize {
